@@ -90,6 +90,9 @@ type APICall struct {
 	CtxKind  string
 	Err      string
 	DelKey   bool
+	RecOK    bool // live record at return (stop calls)
+	RecID    string
+	RecTok   string
 }
 
 func (a *APICall) IsStop() bool { return a.API == "Stop" || a.API == "StopWithContext" }
@@ -254,6 +257,7 @@ func NewView(spec *Spec, ev []Event) *View {
 				a.PostFlag = e.Flag
 				a.PostTok = e.Token
 				a.Err = e.Err
+				a.RecOK, a.RecID, a.RecTok = e.RecOK, e.RecID, e.RecTok
 			}
 		}
 	}
